@@ -171,6 +171,16 @@ class Gen:
         return [["probe", self.pid()]] + self.body(0, self.rng.choice([1, 2, 3, 4]))
 
 
+def limited_shrinks(case, cap=30):
+    """Generic JSON shrinking, but at most `cap` candidates per round: a candidate that hangs costs a full CPU limit."""
+    from ..core import generic_shrinks
+
+    for i, c in enumerate(generic_shrinks(case)):
+        if i >= cap:
+            return
+        yield c
+
+
 def events_digest(evs):
     h = 7
     P = 2305843009213693951
@@ -205,7 +215,7 @@ class DepthStream(Stream):
         # suppress_blank_control_flow_blocks off: `BlockNode.render_to_output` then always takes its `sum(<genexpr>)`
         # path (5 frames per block level, the constant of the model); with the flag on, a block whose children are all
         # "blank" (capture, macro, assign…) is rendered by a plain loop, one frame less per such level
-        r = run_job(dict(render_job(case, full=True, cpu=120.0), suppress_blank=False), flavour="hi", wall_limit=600.0)
+        r = run_job(dict(render_job(case, full=True, cpu=15.0), suppress_blank=False), flavour="hi", wall_limit=240.0)
         evs = r.get("evs") or []
         return {
             "out": r["out"],
@@ -250,6 +260,12 @@ class DepthStream(Stream):
 
     def nontrivial(self, case, obs):
         return obs["out"] in PROPERTY_ERRORS or obs["maxCopy"] >= 2 or obs["maxScope"] >= 8
+
+    def shrink_candidates(self, case):
+        # templates only (names, mode and limit stay); few candidates: a hanging candidate costs the whole CPU limit
+        for i, c in enumerate(limited_shrinks(case["templates"], 12)):
+            if c and all(isinstance(t, list) and len(t) == 2 and isinstance(t[0], str) and isinstance(t[1], list) for t in c) and any(t[0] == case["main"] for t in c):
+                yield dict(case, templates=c)
 
     def tags(self, case, obs):
         return [obs["out"], case["mode"], f"limit{case['limit']}", "frames>=1000" if obs["maxFrames"] >= 1000 else "frames<1000"]
@@ -408,6 +424,10 @@ class ParseStream(Stream):
             return ("parse|slow", f"{obs['cpu_s']} s CPU for {len(case['source'])} characters")
         return None
 
+    def shrink_candidates(self, case):
+        for src in limited_shrinks(case["source"], 6):
+            yield dict(case, source=src)
+
     def nontrivial(self, case, obs):
         return obs.get("ntokens") is not None and obs["ntokens"] >= 4 and (obs["out"] != "ok" or "illegal" in (obs.get("skeleton") or []) or (obs.get("skeleton") or []).count("(") >= 2)
 
@@ -431,7 +451,7 @@ def cpu_budget(nchars) -> float:
     return 0.5 + 20e-6 * (nchars or 0)
 
 # ---- stream 3: systematic recursive families at block depths 0..30, default Python recursion limit -----------
-FRAME_BASE = 30  # Python frames between the interpreter entry of the child and the first probe (measured: abs_base)
+FRAME_BASE = 10  # Python frames between the interpreter entry of the child and the first probe (fallback; measured per case: abs_base)
 BAND_LO, BAND_HI = 760, 1000
 
 
@@ -549,7 +569,9 @@ class FamilyStream(Stream):
         from ..core import jdump
 
         obs = self._obs.get(jdump(case), {})
-        peak = m["maxFrames"] + FRAME_BASE
+        # absolute depth of the model's deepest probe: the child's own frames above the first probe are measured (abs_base),
+        # + 1 for the frame of the probe's depth walk
+        peak = m["maxFrames"] + (obs.get("abs_base") or FRAME_BASE) + 1
         if case.get("async"):
             return {"out": obs.get("out"), "n": obs.get("n")}  # frame costs of the coroutine path are not modelled
         if peak > BAND_HI:
